@@ -50,6 +50,11 @@ impl<T> BTreeSet<T> {
 #[verifier::external_body]
 pub struct ActorId { _p: () }
 impl Clone for ActorId { #[verifier::external_body] fn clone(&self) -> (r: ActorId) ensures r == *self { unimplemented!() } }
+impl vstd::std_specs::cmp::PartialEqSpecImpl for ActorId {
+    open spec fn obeys_eq_spec() -> bool { true }
+    open spec fn eq_spec(&self, o: &Self) -> bool { *self == *o }
+}
+impl PartialEq for ActorId { #[verifier::external_body] fn eq(&self, o: &Self) -> (r: bool) ensures r == (*self == *o) { unimplemented!() } }
 /// a Change is abstract: (hash, actor, seq, deps)
 #[verifier::external_body]
 pub struct Change { _p: () }
@@ -302,8 +307,10 @@ impl ChangeGraphHeads {
 //@ end
 }
 /// the part of Automerge that update_deps touches
-pub struct AutomergeDeps { pub deps: BTreeSet<ChangeHash> }
+pub struct AutomergeDeps { pub deps: BTreeSet<ChangeHash>, pub own_actor: ActorId }
 impl AutomergeDeps {
+    /// accessor of the real Automerge a change to update_deps might plausibly consult (assumed)
+    #[verifier::external_body] pub fn get_actor(&self) -> (r: &ActorId) ensures *r == self.own_actor { unimplemented!() }
 //@ fn rust/automerge/src/automerge.rs | impl Automerge | update_deps
 //@   spec
         ensures final(self).deps@ == old(self).deps@.difference(change.spec_deps().to_set()).insert(change.spec_hash()),
